@@ -69,6 +69,17 @@ pub fn run(ctx: &Ctx) {
         tx.access_list = (0..e).map(|a| ([0xd0 + a as u8; 20], (0..s).map(|x| { let mut k = [0u8; 32]; k[31] = x as u8; k[0] = a as u8; k }).collect())).collect();
         one("access-list-sizes", i, format!("{name},entries={e},slots-class={}", match s { 0 => "0", 1 => "1", _ => "many" }), &tx, &sigs()[2]);
     });
+    // EQUAL elements inside one list: the same address in two entries (adjacent and apart, same and different keys), the same
+    // key twice in one entry, the same key under two addresses, an entry equal to the recipient - every element is encoded,
+    // in order, as often as it occurs (distinct transactions never share an encoding)
+    let a = [0xd1u8; 20]; let b = [0xd2u8; 20]; let k1 = [1u8; 32]; let k2 = [2u8; 32];
+    let repeats: Vec<(&str, Vec<([u8; 20], Vec<[u8; 32]>)>)> = vec![("same-entry-twice", vec![(a, vec![k1]), (a, vec![k1])]), ("same-address-other-keys", vec![(a, vec![k1]), (a, vec![k2])]), ("same-address-apart", vec![(a, vec![k1]), (b, vec![k2]), (a, vec![k2])]),
+        ("same-address-empty-keys-twice", vec![(a, vec![]), (a, vec![])]), ("same-key-twice-in-an-entry", vec![(a, vec![k1, k1])]), ("same-key-three-times", vec![(a, vec![k1, k2, k1, k1])]), ("same-key-under-two-addresses", vec![(a, vec![k1]), (b, vec![k1])]),
+        ("three-equal-entries", vec![(a, vec![k1, k2]), (a, vec![k1, k2]), (a, vec![k1, k2])]), ("entry-with-and-without-keys", vec![(a, vec![]), (a, vec![k1])])];
+    ctx.sweep("access-list-repeated-elements", "access lists with equal elements (the same address in two or three entries, adjacent and apart; the same storage key twice or three times in an entry; the same key under two addresses), 2 typed kinds: encoded in order as often as they occur", (repeats.len() * 2) as u64, |i| {
+        let (label, al) = &repeats[i as usize / 2]; let (k, name) = kinds()[1 + (i % 2) as usize]; let mut tx = txjson::template(k, true); tx.access_list = al.clone();
+        one("access-list-repeated-elements", i, format!("{name},repeated={label}"), &tx, &sigs()[2]);
+    });
     if ctx.thorough() {
         let big = [65535usize, 65536, 65537, 65536 + 55, (1 << 24) - 1, 1 << 24, (1 << 24) + 1];
         ctx.sweep("calldata-2^16-2^24", "calldata lengths 65535..65537, 65591, 2^24-1..2^24+1 x 3 kinds (3- and 4-byte length prefixes)", (big.len() * 3) as u64, |i| {
